@@ -89,6 +89,7 @@ var identCatalogue = []identMutation{
 	}},
 	{Name: "ident-keys-garbage", Verdict: "either", Applies: anyV, Apply: setField("pub_keys", []string{"garbage"})},
 	{Name: "ident-keys-type-confused", Verdict: "reject", Applies: anyV, Apply: setField("pub_keys", 7)},
+	{Name: "ident-keys-null-element", Verdict: "reject", Applies: anyV, Apply: setField("pub_keys", []interface{}{nil})},
 	{Name: "ident-metadata-type-confused", Verdict: "reject", Applies: anyV, Apply: setField("metadata", []int{1})},
 	{Name: "ident-tree-no-version-entry", Verdict: "reject", Applies: anyV, Apply: func(chain []*identVersion, v int, st *identState) {
 		chain[v].Entries = []model.Entry{{Name: "ver", Kind: "blob", Data: chain[v].blob()}}
